@@ -1,12 +1,10 @@
 package main
 
 import (
-	"context"
 	"fmt"
 	"time"
 
 	"verif/fqx"
-	"verif/vos"
 )
 
 func init() { register("selftest", selftestMain) }
@@ -15,13 +13,6 @@ func selftestMain(args []string) {
 	s := fqx.NewSession()
 	defer s.Close()
 	t := time.Now()
-	outs, err := s.Eval(nil, `[1,2,3] | map(.+1), ("1f8b" | from_hex | tobytes | length)`)
-	fmt.Println(outs, err, time.Since(t))
-	t = time.Now()
-	outs, err = s.Eval(nil, `"0a" | from_hex | decode("msgpack") | torepr`)
-	fmt.Printf("%#v %v %v\n", outs, err, time.Since(t))
-	o := vos.New("-d", "msgpack", "torepr", "f.bin")
-	o.Files["f.bin"] = []byte{0x93, 1, 2, 3}
-	res := o.RunMain(context.Background(), fqx.Registry())
-	fmt.Println(res.String())
+	outs, err := s.Eval(nil, args[0])
+	fmt.Printf("%v\nerr=%v %v\n", outs, err, time.Since(t))
 }
